@@ -16,7 +16,7 @@ RULE = (
     "decoder.stream.picture_decode rebound to a recorder of the decoded transform arrays; the Deserialiser's description of the same "
     "bytes is turned by the harness' own model (table lookup of video format, own slice geometry, own dequantiser and DC prediction) "
     "into transform arrays which must equal the recorded ones element-wise, together with the data-unit parse codes/offsets, video "
-    "parameters, transform and slice parameters, quantisation matrix and picture numbers. Non-trivial = stream with non-zero "
+    "parameters, transform and slice parameters, quantisation matrix and picture numbers; the '_state' snapshot attached to every block of slices must show that unit's own parameter values. Non-trivial = stream with non-zero "
     "coefficients in >= 2 subbands of some picture; distinct by byte hash."
 )
 ASSUMPTIONS = [
@@ -60,6 +60,43 @@ def compare_arrays(model, rec, data, col, pi):
     return nz_bands
 
 
+def check_state_snapshots(desc, data, col):
+    """The deserialiser attaches a snapshot of its parser state ('_state') to every block of slices so that
+    tools can work out where the coefficients belong: each snapshot must show the parameter values that were in
+    force for THAT data unit (the values the validator used), not those of a later unit."""
+    for si, seq in enumerate(desc["sequences"]):
+        tp = None
+        for ui, du in enumerate(seq["data_units"]):
+            snap = None
+            want = {"parse_code": int(du["parse_info"]["parse_code"])}
+            if "picture_parse" in du:
+                wt = du["picture_parse"]["wavelet_transform"]
+                tp = wt["transform_parameters"]
+                snap = wt["transform_data"].get("_state")
+                want["picture_number"] = du["picture_parse"]["picture_header"]["picture_number"]
+            elif "fragment_parse" in du:
+                fp = du["fragment_parse"]
+                fh = fp["fragment_header"]
+                if fh["fragment_slice_count"] == 0:
+                    tp = fp["transform_parameters"]
+                    continue
+                snap = fp["fragment_data"].get("_state")
+                want.update(picture_number=fh["picture_number"], fragment_slice_count=fh["fragment_slice_count"],
+                            fragment_x_offset=fh["fragment_x_offset"], fragment_y_offset=fh["fragment_y_offset"])
+            else:
+                continue
+            if snap is None or tp is None:
+                col.fail("state-snapshot-missing", data, "sequence %d unit %d: no _state snapshot" % (si, ui))
+                continue
+            sp = tp["slice_parameters"]
+            want.update(slices_x=sp["slices_x"], slices_y=sp["slices_y"], dwt_depth=tp["dwt_depth"], wavelet_index=int(tp["wavelet_index"]))
+            bad = {k: (snap.get(k), v) for k, v in want.items() if snap.get(k) is None or int(snap.get(k)) != int(v)}
+            if bad:
+                col.fail("state-snapshot-stale", data, "sequence %d unit %d: _state snapshot disagrees with the unit's own headers "
+                         "(snapshot, header): %r" % (si, ui, bad))
+                return
+
+
 def check(cf, specs, nums, plan, col):
     from vc2_conformance.encoder.exceptions import UnsatisfiableCodecFeaturesError
 
@@ -89,6 +126,7 @@ def check(cf, specs, nums, plan, col):
     except Exception as e:
         col.fail(col.crash_bucket(e, "deserialise"), data, "deserialiser raised %s on a stream the validator accepts: %s" % (type(e).__name__, str(e)[:200]))
         return facts
+    check_state_snapshots(desc, data, col)
     pics, units = DEC.pictures_from_description(desc)
     if len(pics) != len(records):
         col.fail("picture-count", data, "deserialiser sees %d pictures, validator decoded %d" % (len(pics), len(records)))
